@@ -240,6 +240,16 @@ def run(chk, tier):
             g, acq_bb = gc
             cfg = cfg or CFG(fn)
             drops = [bj for bj, b2 in enumerate(fn['blocks']) if not b2['cleanup'] and b2['term']['k'] == 'drop' and b2['term']['p']['l'] == g and not b2['term']['p']['p']]
+            # an explicit `drop(guard)` releases the lock just as the end of the guard's scope does: the guard is moved into core::mem::drop
+            for bj, b2 in enumerate(fn['blocks']):
+                t2 = b2['term']
+                if b2['cleanup'] or t2['k'] != 'call' or not re.search(r'core::mem::drop$', t2.get('resolved') or t2['callee'] or ''):
+                    continue
+                a2 = op_place(t2['args'][0]) if t2['args'] else None
+                d2 = def_of(fn, a2['l']) if a2 else None
+                via = d2[1].get('a', {}).get('move', {}).get('l') if d2 and d2[0] == 'stmt' and isinstance(d2[1], dict) and isinstance(d2[1].get('a'), dict) and isinstance(d2[1]['a'].get('move'), dict) else None
+                if a2 and not a2['p'] and (a2['l'] == g or via == g):
+                    drops.append(bj)
             ok = cfg.dominates(acq_bb, bi) and drops and all(cfg.dominates(bi, dj) for dj in drops)
             if ok:
                 chk.ok('O3', inst, 'receiver = *write-guard; guard acquired in bb%d, dropped after the call' % acq_bb)
